@@ -14,7 +14,9 @@ M_FMT = "clikit.api.formatter.formatter"
 # ---------------------------------------------------------------- shapes
 R.shape("OutputStream", external=True, ghost=("g_count", "g_last", "g_text"), g_count="int", g_last="str", g_text="str",
         g_ansi="bool", g_utf8="bool")
-R.shape("Formatter", external=True, g_force="bool", g_disable="bool")
+# `final`: a formatter reference is modelled as an abstract Formatter obeying the assumed contract below (an Output
+# used as another output's formatter is covered by that contract, not by aliasing)
+R.shape("Formatter", external=True, final=True, g_force="bool", g_disable="bool")
 R.shape("Terminal", external=True, g_width="int")
 R.shape(
     "Output",
@@ -134,11 +136,11 @@ c = R.contract(
     ensures=[
         wrote_iff(GATE),
         # C11: a line write ends in exactly the newline that was asked for
-        "implies(%s and new_line, %s.endswith('\\n'))" % (GATE, LAST),
+        "[C11] implies(%s and new_line, %s.endswith('\\n'))" % (GATE, LAST),
         # C11: undecorated output goes through remove_format, decorated through format (when not indented)
-        "implies(%s and not (self._indent > 0 and with_indent) and self._format_output, "
+        "[C11] implies(%s and not (self._indent > 0 and with_indent) and self._format_output, "
         "%s == fmt_format(self._formatter, string) + ('\\n' if new_line else ''))" % (GATE, LAST),
-        "implies(%s and not (self._indent > 0 and with_indent) and not self._format_output, "
+        "[C11] implies(%s and not (self._indent > 0 and with_indent) and not self._format_output, "
         "%s == fmt_remove(self._formatter, string) + ('\\n' if new_line else ''))" % (GATE, LAST),
     ],
     modifies=STREAM_GHOST,
@@ -151,7 +153,7 @@ c = R.contract(
     requires=[VALID],
     ensures=[
         wrote_iff(GATE),
-        "implies(%s, %s.endswith('\\n'))" % (GATE, LAST),
+        "[C11] implies(%s, %s.endswith('\\n'))" % (GATE, LAST),
     ],
     modifies=STREAM_GHOST,
 )
@@ -161,7 +163,7 @@ c = R.contract(
     M_OUT + ":Output.write_raw",
     params={"string": "str", "flags": "int?"},
     requires=[VALID],
-    ensures=[wrote_iff(GATE), "implies(%s, %s == string)" % (GATE, LAST)],
+    ensures=[wrote_iff(GATE), "[C11] implies(%s, %s == string)" % (GATE, LAST)],
     modifies=STREAM_GHOST,
 )
 c.defaults = {"flags": None}
@@ -172,9 +174,9 @@ c = R.contract(
     requires=[VALID],
     ensures=[
         wrote_iff(GATE),
-        "implies(%s, %s.endswith('\\n'))" % (GATE, LAST),
+        "[C11] implies(%s, %s.endswith('\\n'))" % (GATE, LAST),
         # exactly one trailing newline: the text before it does not end in one
-        "implies(%s, not %s[:-1].endswith('\\n'))" % (GATE, LAST),
+        "[C11] implies(%s, not %s[:-1].endswith('\\n'))" % (GATE, LAST),
     ],
     modifies=STREAM_GHOST,
 )
@@ -199,7 +201,7 @@ for meth, out, g, line in (
 ):
     ens = [wrote_iff(g, out + "._stream")]
     if line:
-        ens.append("implies(%s, %s._stream.g_last.endswith('\\n'))" % (g, out))
+        ens.append("[C11] implies(%s, %s._stream.g_last.endswith('\\n'))" % (g, out))
     c = R.contract(
         M_IO + ":IO." + meth,
         params={"string": "str", "flags": "int?"},
@@ -208,3 +210,168 @@ for meth, out, g, line in (
         modifies=ghost_of(out + "._stream"),
     )
     c.defaults = {"flags": None}
+
+# ---------------------------------------------------------------- SectionOutput
+SEC = M_SEC + ":SectionOutput."
+UNCHANGED = ("self._stream.g_count == old(self._stream.g_count) and self._stream.g_text == old(self._stream.g_text) "
+             "and self._stream.g_last == old(self._stream.g_last)")
+ANSI = "(self._format_output or self._formatter.g_force)"
+
+R.local_kinds = getattr(R, "local_kinds", {})
+R.local_kinds[SEC + "_pop_stream_content_until_current_section"] = {"erased_content": "list[str]"}
+
+R.contract(SEC + "lines", params={}, returns="int", ensures=["result == self._lines"]).is_property = True
+R.uf("join_all", ["seq[str]"], "str")
+R.contract(
+    SEC + "content",
+    params={},
+    returns="str",
+    ensures=["result == join_all(self._content)"],
+    assumed=True,
+    note="''.join(list) as an uninterpreted function of the list contents",
+).is_property = True
+
+R.contract(
+    SEC + "add_content",
+    params={"content": "str"},
+    modifies=["self._lines", "items(self._content)"],
+    assumed=True,
+    note="row accounting is specified and checked under C15; here only its frame is used",
+)
+
+c = R.contract(
+    SEC + "_pop_stream_content_until_current_section",
+    params={"lines_to_clear_count": "int"},
+    returns="str",
+    requires=[VALID],
+    ensures=[
+        # control-only path: may have nothing to erase, but never writes on a quiet output
+        "implies(self._quiet, %s)" % UNCHANGED,
+        "self._stream.g_count >= old(self._stream.g_count)",
+    ],
+    modifies=STREAM_GHOST,
+)
+c.defaults = {"lines_to_clear_count": 0}
+R.loop(
+    SEC + "_pop_stream_content_until_current_section",
+    0,
+    invariants=["True"],
+    modifies=["items(erased_content)"],
+    fingerprint="section in self._sections",
+)
+
+c = R.contract(
+    SEC + "write",
+    params=WRITE_PARAMS,
+    requires=[VALID],
+    ensures=[
+        # text-carrying method: something reaches the stream iff the gate holds for the caller's flags
+        "implies(not %s, %s)" % (GATE, UNCHANGED),
+        "implies(%s, self._stream.g_count > old(self._stream.g_count))" % GATE,
+        # C11/C15: without ANSI the section degrades to a plain write of the same kind
+        "[C11,C15] implies(%s and not %s and new_line, self._stream.g_last.endswith('\\n'))" % (GATE, ANSI),
+    ],
+    modifies=STREAM_GHOST + ["self._lines", "items(self._content)"],
+)
+c.defaults = {"flags": None, "new_line": False, "with_indent": True}
+
+c = R.contract(
+    SEC + "clear",
+    params={"lines": "int?"},
+    requires=[VALID],
+    ensures=["implies(self._quiet, %s)" % UNCHANGED, "self._stream.g_count >= old(self._stream.g_count)",
+             "self._content is old(self._content) or fresh(self._content)"],
+    modifies=STREAM_GHOST + ["self._lines", "self._content", "items(self._content)"],
+)
+c.defaults = {"lines": None}
+
+R.contract(
+    SEC + "overwrite",
+    params={"message": "str"},
+    requires=[VALID],
+    ensures=[
+        "implies(self._quiet, %s)" % UNCHANGED,
+        "implies(not self._quiet, self._stream.g_count > old(self._stream.g_count))",
+    ],
+    modifies=STREAM_GHOST + ["self._lines", "self._content", "items(self._content)"],
+)
+
+
+# ---------------------------------------------------------------- native stubs for replay
+class StubStream(object):
+    g_count = 0
+    g_last = ""
+    g_text = ""
+    g_ansi = False
+    g_utf8 = True
+
+    def write(self, string):
+        self.g_count += 1
+        self.g_last = string
+        self.g_text += string
+
+    def flush(self):
+        pass
+
+    def supports_ansi(self):
+        return self.g_ansi
+
+    def supports_utf8(self):
+        return self.g_utf8
+
+
+class StubFormatter(object):
+    g_force = False
+    g_disable = False
+
+    def format(self, string, style=None):
+        return "\x1b[1m" + string + "\x1b[0m"
+
+    def remove_format(self, string):
+        import re
+        return re.sub(r"</?[a-z0-9=;,]*>", "", string)
+
+    def force_ansi(self):
+        return self.g_force
+
+    def disable_ansi(self):
+        return self.g_disable
+
+
+class StubTerminal(object):
+    g_width = 80
+
+    def __stub_init__(self):
+        if not isinstance(self.g_width, int) or self.g_width < 1:
+            self.g_width = 80  # the assumed contract of Terminal.width: at least 1
+
+    @property
+    def width(self):
+        return self.g_width
+
+
+R.native_stubs = getattr(R, "native_stubs", {})
+R.native_stubs.update({"OutputStream": StubStream, "Formatter": StubFormatter, "Terminal": StubTerminal})
+R.ufs["fmt_format"].native = lambda f, s: f.format(s)
+R.ufs["fmt_remove"].native = lambda f, s: f.remove_format(s)
+R.ufs["join_all"].native = lambda xs: "".join(xs)
+
+# a Terminal always reports a usable width (its own test-suite invariant)
+R.contract("clikit.utils.terminal:Terminal.width", params={}, returns="int",
+           ensures=["result == self.g_width", "result >= 1"], assumed=True,
+           note="Terminal.width is at least 1").is_property = True
+
+# inherited line method on a section-output receiver: dispatches to SectionOutput.write
+c = R.contract(
+    M_OUT + ":Output.write_line",
+    for_cls="SectionOutput",
+    params={"string": "str", "flags": "int?"},
+    requires=[VALID],
+    ensures=[
+        "implies(not %s, %s)" % (GATE, UNCHANGED),
+        "implies(%s, self._stream.g_count > old(self._stream.g_count))" % GATE,
+        "[C11,C15] implies(%s and not %s, self._stream.g_last.endswith('\\n'))" % (GATE, ANSI),
+    ],
+    modifies=STREAM_GHOST + ["self._lines", "items(self._content)"],
+)
+c.defaults = {"flags": None}
